@@ -1,11 +1,51 @@
 (* C07 — A persisted session resumes exactly where an uninterrupted one would be.
-   Full statement (DESIGN section 6): bisimulation between one long-lived engine and one
-   engine per request over a store, on responses, for every history up to the end of the
-   session.  Proved so far: what is saved is exactly what the next engine starts from, and
-   the only per-engine state a request reads besides the snapshot is the page, which every
-   resumption after a HALT resets (the bisimulation itself is checked differentially on every
-   run: both modes of the real engine against each other and against both modes of the model). *)
-From Vise Require Import Bytes Errors Consts Codec CacheModel StateModel NavModel RenderModel VmModel EngineModel.
+
+   Full statement (properties.jsonl, DESIGN section 6): for every application, configuration and input
+   history, serving the history with one long-lived engine and serving it one request at a time — each
+   request with a new engine around the stored session, saved back by Finish — gives the same
+   continue/stop results, Exec errors, outputs and Flush errors, up to and including the first response
+   that ends the session ("calling Exec again has undefined effects" for the long-lived engine):
+
+     forall fuel a c h,
+       upto_stop (snd (serve_long fuel (app_rsrc a) c (new_engine c None [] []) h))
+       = upto_stop (snd (serve_pers fuel (app_rsrc a) c (mkPw None [] [] false) h)).
+
+   This is FALSE of the model (and of the code: each refutation below was replayed on the real engine).
+   Three classes of divergence, each excluded by a named decidable guard:
+
+   * K-C07-first     `c_first c = None`: an entry function runs once per ENGINE (C07_refuted_first).
+   * K-C07-longbad   `input_ok_b i`: an input that is over-long AND fails the input pattern.  The long-lived
+                     engine (init already done) checks the pattern first and answers (continue, error); a new
+                     engine's init calls SetInput first and answers (stop, error) (C07_refuted_longbad).
+   * K-C07-browse    `no_browse_leak_b`: Menu.Reset keeps the browse configuration (next/previous entries
+                     and their availability flags).  A node that sets them, HALTs, and then builds another
+                     paginated page WITHOUT an intervening MOVE / fired INCMP / CROAK shows the entries in the
+                     long-lived engine only (C07_refuted_browse).  The guard says exactly that the browse
+                     configuration with which the request's execution ends does not depend on the one left
+                     over from the previous request (it compares with the run of the same engine whose
+                     leftover configuration was wiped, `scrub`); it holds trivially whenever the menu is
+                     clean at the start of the request (C07_no_leak_when_clean) and, as the example shows,
+                     on ordinary paginated nodes, whose INCMPs replace the menu before anything is rendered.
+
+   Two technical guards:
+   * `no_browse_err_b`: the render of the request's Flush raised no BrowseError.  After the BrowseError
+     fallback (reset, MOVE _catch, render again) DIRTY stays set and the long-lived engine renders once
+     more at the start of the next request.  The RESPONSE of the request with the fallback is still proved
+     equal; only the continuation is not covered.  No generated or corpus case reaches this path, and
+     rendering on a freshly reset sizer seems unable to (the sink cursor lookup fails first with a generic
+     error); not proved.
+   * `cfg_flags_ok_b c`: the flag field of a new session has at least one byte (FlagCount + 8 <= 2040; beyond
+     that Go's uint8 byte count wraps to 0 and every flag access panics, which the model's total
+     getf/setf do not show).
+
+   What is proved (all applications, resources, configurations, histories, fuel; fuel exhaustion and
+   panics are not excluded: they occur on both sides alike and end the comparison):
+   C07_step_simulation_partial, C07_first_step_partial, C07_history_simulation_partial, and the
+   congruences they rest on: `run`, `vm_render` and `page_render` respect page equivalence (nothing reads
+   the sizer's member table / running total; the menu's browse configuration is the only other
+   unpersisted state that survives a resumption after HALT). *)
+From Vise Require Import Bytes Errors Consts EngConsts Codec CacheModel StateModel NavModel RenderModel VmModel EngineModel
+  EngineProofs BisimProofs.
 Local Open Scope N_scope.
 
 (* saving and loading is the identity on everything but the unexported input field *)
@@ -19,5 +59,139 @@ Theorem C07_finish_saves_current : forall e,
   e_initd e = true -> eng_finish e = Some (snap_of (v_st (e_v e)) (v_ca (e_v e))).
 Proof. intros e H. unfold eng_finish. rewrite H. reflexivity. Qed.
 
+(* the long-lived engine's Flush at the start of the next request is a no-op when the previous one completed *)
+Theorem C07_reflush_is_noop : forall fuel rs c e,
+  e_execd e = true -> getf (v_st (e_v e)) FLAG_DIRTY = false -> e_exiting e = false -> e_exit e = [] ->
+  eng_flush fuel rs c e = (e, [], FOk).
+Proof. exact eng_flush_idle. Qed.
+
+(* in general, for an engine whose last Flush rendered what there was to render and completed a pending
+   session end: the second Flush hands out the exit value again and changes nothing — or, when the exit value
+   alone exceeds the output size, fails, again without changing anything: such an engine is stuck (every
+   later request fails in prepare).  An exit value exists only after a response with cont = false, i.e.
+   beyond the prefix C07 compares; persisted operation starts over instead *)
+Theorem C07_reflush_settled : forall fuel rs c e,
+  e_execd e = true -> getf (v_st (e_v e)) FLAG_DIRTY = false -> e_exiting e = false ->
+  eng_flush fuel rs c e = if exit_over c (e_exit e) then (e, [], FErr EGen) else (e, e_exit e, FOk).
+Proof. exact eng_flush_settled. Qed.
+
+(* ---- congruences: nothing reads what the equivalence ignores ----------------------------------------------- *)
+(* Page.Render (render_respects_equiv) *)
+Theorem C07_render_respects_equiv : forall c gt gm a b sym idx, peq false a b ->
+  fst (page_render c gt gm a sym idx) = fst (page_render c gt gm b sym idx)
+  /\ peq false (snd (page_render c gt gm a sym idx)) (snd (page_render c gt gm b sym idx)).
+Proof. exact page_render_peq. Qed.
+
+(* Vm.Run, for both equivalences (lk = true: also up to the browse configuration) *)
+Theorem C07_run_respects_equiv : forall lk f rs sep lang bb a b, veq lk a b ->
+  heq lk (run f rs sep lang bb a) (run f rs sep lang bb b).
+Proof. exact run_veq. Qed.
+
+(* Vm.Render including the BrowseError fallback *)
+Theorem C07_vm_render_respects_equiv : forall fuel rs sep lang a b, veq false a b ->
+  snd (vm_render fuel rs sep lang a) = snd (vm_render fuel rs sep lang b)
+  /\ veq false (fst (vm_render fuel rs sep lang a)) (fst (vm_render fuel rs sep lang b)).
+Proof. exact vm_render_veq. Qed.
+
+(* a run that hands back pending code without error stopped at a HALT: WAIT is set, so the next run starts
+   by resetting the page *)
+Theorem C07_cont_means_wait : forall c f rs lang bb v v' b',
+  flags_ok (v_st v) ->
+  run f rs (c_sep c) lang bb v = (v', b', SOk) -> b' <> [] -> getf (v_st v') FLAG_WAIT = true.
+Proof. exact run_stops_at_halt. Qed.
+
+(* ---- the simulation ------------------------------------------------------------------------------------------- *)
+Theorem C07_step_simulation_partial : forall fuel rs c e p i,
+  c_first c = None -> R c e p -> input_ok_b i = true -> no_browse_leak_b fuel rs c e i = true ->
+  let '(e', rl) := request_long fuel rs c e i in
+  let '(p', rp) := request_persisted fuel rs c p i in
+  rl = rp /\
+  (r_cont rl = true -> flush_alive (r_flush rl) -> no_browse_err_b fuel rs c e i = true -> R c e' p').
+Proof. exact step_simulation. Qed.
+
+Theorem C07_first_step_partial : forall fuel rs c w lg t i,
+  c_first c = None -> cfg_flags_ok c ->
+  let '(e', rl) := request_long fuel rs c (new_engine c None w lg) i in
+  let '(p', rp) := request_persisted fuel rs c (mkPw None w lg t) i in
+  rl = rp /\
+  (r_cont rl = true -> flush_alive (r_flush rl) -> no_browse_err_b fuel rs c (new_engine c None w lg) i = true -> R c e' p').
+Proof. exact first_step. Qed.
+
+Theorem C07_history_simulation_partial : forall fuel rs c h,
+  c_first c = None -> cfg_flags_ok_b c = true ->
+  c07_guard_b fuel rs c (new_engine c None [] []) h = true ->
+  upto_stop (snd (serve_long fuel rs c (new_engine c None [] []) h))
+  = upto_stop (snd (serve_pers fuel rs c (mkPw None [] [] false) h)).
+Proof. exact history_simulation_b. Qed.
+
+Theorem C07_no_leak_when_clean : forall fuel rs c e i,
+  scrubp (v_pg (e_v e)) = v_pg (e_v e) -> no_browse_leak_b fuel rs c e i = true.
+Proof. exact no_leak_when_clean. Qed.
+
+(* ---- refutations ------------------------------------------------------------------------------------------------ *)
+Theorem C07_refuted_first :
+  exists (a : app) (c : config) (h : list bytes),
+    c_first c <> None /\ cfg_flags_ok_b c = true /\ forallb input_ok_b h = true
+    /\ upto_stop (snd (serve_long 1000 (app_rsrc a) c (new_engine c None [] []) h))
+       <> upto_stop (snd (serve_pers 1000 (app_rsrc a) c (mkPw None [] [] false) h)).
+Proof. exact refuted_first. Qed.
+
+Theorem C07_refuted_longbad :
+  exists (a : app) (c : config) (h : list bytes),
+    c_first c = None /\ cfg_flags_ok_b c = true /\ forallb input_ok_b h = false
+    /\ map r_cont (snd (serve_long 1000 (app_rsrc a) c (new_engine c None [] []) h)) = [true; true]
+    /\ map r_cont (snd (serve_pers 1000 (app_rsrc a) c (mkPw None [] [] false) h)) = [true; false]
+    /\ upto_stop (snd (serve_long 1000 (app_rsrc a) c (new_engine c None [] []) h))
+       <> upto_stop (snd (serve_pers 1000 (app_rsrc a) c (mkPw None [] [] false) h)).
+Proof. exact refuted_longbad. Qed.
+
+Theorem C07_refuted_browse :
+  exists (a : app) (c : config) (h : list bytes),
+    c_first c = None /\ cfg_flags_ok_b c = true /\ forallb input_ok_b h = true
+    /\ c07_guard_b 1000 (app_rsrc a) c (new_engine c None [] []) h = false
+    /\ map r_out (snd (serve_long 1000 (app_rsrc a) c (new_engine c None [] []) h))
+       = [[114; 111; 111; 116]; [114; 111; 111; 116] ++ [10] ++ [49; 49; 58; 110; 120]]
+    /\ map r_out (snd (serve_pers 1000 (app_rsrc a) c (mkPw None [] [] false) h))
+       = [[114; 111; 111; 116]; [114; 111; 111; 116]]
+    /\ upto_stop (snd (serve_long 1000 (app_rsrc a) c (new_engine c None [] []) h))
+       <> upto_stop (snd (serve_pers 1000 (app_rsrc a) c (mkPw None [] [] false) h)).
+Proof. exact refuted_browse. Qed.
+
+(* ---- non-vacuity ---------------------------------------------------------------------------------------------------- *)
+(* a paginated application (sink of three pages, next/previous entries) browsed forward and back, with a
+   malformed input, an unknown selector, a descent and an ascent, and a final over-long input: every guard
+   holds at every step although the long-lived menu carries a browse configuration across each HALT *)
+Example C07_ex_guards :
+  c_first w_cfg28 = None /\ cfg_flags_ok_b w_cfg28 = true
+  /\ c07_guard_b 2000 (app_rsrc w_app_pages) w_cfg28 (new_engine w_cfg28 None [] []) w_hist_pages = true
+  /\ List.length (upto_stop (snd (serve_long 2000 (app_rsrc w_app_pages) w_cfg28 (new_engine w_cfg28 None [] []) w_hist_pages))) = 10%nat
+  /\ nth 2 (map r_out (snd (serve_pers 2000 (app_rsrc w_app_pages) w_cfg28 (mkPw None [] [] false) w_hist_pages))) []
+     = [114; 32; 115; 101; 118; 101; 110; 10; 101; 105; 103; 104; 116; 10; 50; 50; 58; 112; 114; 118]
+  /\ bro (v_pg (e_v (fst (serve_long 2000 (app_rsrc w_app_pages) w_cfg28 (new_engine w_cfg28 None [] []) [[]; [49; 49]]))))
+     <> bro (P0 w_cfg28).
+Proof. repeat split; try (vm_compute; reflexivity). intros H. vm_compute in H. discriminate. Qed.
+
+(* the relation holds after a request and relates an engine whose page differs from a new engine's *)
+Example C07_ex_step :
+  let e := fst (serve_long 2000 (app_rsrc w_app_pages) w_cfg28 (new_engine w_cfg28 None [] []) [[]; [49; 49]]) in
+  e_initd e = true /\ e_execd e = true /\ getf (v_st (e_v e)) FLAG_WAIT = true
+  /\ v_pg (e_v e) <> P0 w_cfg28
+  /\ input_ok_b [49; 49] = true /\ no_browse_leak_b 2000 (app_rsrc w_app_pages) w_cfg28 e [49; 49] = true
+  /\ no_browse_err_b 2000 (app_rsrc w_app_pages) w_cfg28 e [49; 49] = true.
+Proof. repeat split; try (vm_compute; reflexivity). intros H. vm_compute in H. discriminate. Qed.
+
 Print Assumptions C07_restore_is_snapshot.
 Print Assumptions C07_finish_saves_current.
+Print Assumptions C07_reflush_is_noop.
+Print Assumptions C07_reflush_settled.
+Print Assumptions C07_render_respects_equiv.
+Print Assumptions C07_run_respects_equiv.
+Print Assumptions C07_vm_render_respects_equiv.
+Print Assumptions C07_cont_means_wait.
+Print Assumptions C07_step_simulation_partial.
+Print Assumptions C07_first_step_partial.
+Print Assumptions C07_history_simulation_partial.
+Print Assumptions C07_no_leak_when_clean.
+Print Assumptions C07_refuted_first.
+Print Assumptions C07_refuted_longbad.
+Print Assumptions C07_refuted_browse.
